@@ -179,6 +179,8 @@ func (h *FBDNSDB) ServeDNSWithRCODE(ctx context.Context, w dns.ResponseWriter, r
 
 	// Check if this is a supported edns version
 	if a, err := edns.Version(r); err != nil { // Wrong EDNS version, return at once.
+		// edns.Version empties the question section; a response carries the question it answers
+		a.Question = r.Question
 		return h.writeAndLog(state, a, ecs)
 	}
 
